@@ -142,8 +142,10 @@ class Check:
             self.tables = report
             if not report.get('ok'):
                 bad = [k for k, v in report.get('sections', {}).items() if not v.get('ok')]
+                norm = lambda n: n.replace('_', '').lower()
+                wanted = None if sections is None else {norm(x) for x in sections}
                 for k in bad:
-                    if sections is None or k in sections:
+                    if wanted is None or norm(k) in wanted:
                         self.broken.append('translator:{}: {}'.format(
                             k, report['sections'][k].get('error')))
                 if not report.get('sections'):
